@@ -171,6 +171,8 @@ arrays("C13", configs={"quick": ["pinned"], "thorough": ["pinned", "native", "as
               "PROT_NONE page; library-internal blocks carry redzones; result must be 0 or a correct prefix",
        rule_extra="; x every capacity 0..n (n <= 385 quick, 4097 thorough)")
 arrays("C16", "E-enum: every metadata field and header accessor named by the property compared with ground truth "
+              "(for the patched frame: the exception count must equal the number of frame cells holding the marker and every listed "
+              "pair must name such a cell and the input's value) "
               "recomputed by the harness from the input and from the bytes written")
 arrays("C06", "E-enum: adaptive auto-selection and every forced encoding whose domain contains the array, decoded from an "
               "exact-size copy; decision-tree path signatures counted; synthetic sweep of the selection function",
@@ -229,11 +231,17 @@ CHECKS["C09"] = dict(
          "sets used in the tree); isolation: every element index of an array covering three periods of lcm(width, slot) x value "
          "alphabet (all values for width <= 8 quick / 12 thorough, else boundary + walking-bit values) x 4 backgrounds; sorted "
          "semantics: BFS to closure over sorted multisets of <= 7 elements on a 5-value alphabet; class = (width, slot, flavour, "
-         "start bit in slot, one-/two-slot) and one class per instance for the sorted closure",
+         "start bit in slot, one-/two-slot) and one class per instance for the sorted closure; plus 12 narrow-length-type "
+         "instances (PACK_MAX_ELEMENTS <= 255 / 65535), far elements: every index where the index, the bit offset, the byte "
+         "offset or the slot index crosses 2^8, 2^15, 2^16, 2^24, 2^31, 2^32 (+-1) and the top of the index range, in lazily "
+         "committed 16 GiB storage, and the sorted-array operations on arrays near the top of the narrow index ranges / of "
+         "70000 elements",
     explanation="E-enum: after Set/SetIncr/SetHalf the whole storage including guard bytes equals a bit-array model and Get of "
                 "every element equals the model; storage re-placed so that the slots the element occupies touch PROT_NONE pages "
                 "on either side (any access to a slot it does not occupy faults). E-bfs: every reachable sorted state x every "
-                "operation compared with a plain sorted array, Member = first equal or -1, BinarySearch = lower bound",
+                "operation compared with a plain sorted array, Member = first equal or -1, BinarySearch = lower bound. Far "
+                "elements: the window around the addressed slots equals the model and mincore() shows that no other page of the "
+                "whole storage was accessed",
     technique="exhaustive enumeration of (instantiation, position, value, background) plus explicit-state closure of the sorted-array state space",
     assumptions=["widths above 32 are outside the property; the bit-array model is trusted"],
 )
@@ -246,7 +254,9 @@ CHECKS["C11"] = dict(
     rule="both supported word types (uint64_t default, uint32_t via VBITS/VBITSVAL) x every bit offset in [0, 3W) x every "
          "width 1..W x value alphabet (all values for width <= 8 quick / 12 thorough, else 0, 1, all-ones, all-ones-1, MSB, "
          "55.., AA.., walking one) x 4 prior contents; signed helpers: width 2..64 x all magnitudes for width <= 17, alphabet "
-         "beyond; class = (word type, offset mod W, one-/two-word)",
+         "beyond; far offsets: 2^31, 2^32, 2^33, 2^34, 2^35 + 12 deltas x 10 widths x 3 values x 2 priors x {Set then independent "
+         "read, independent write then Get} in a lazily committed 4 GiB stream with a mincore() page-access oracle over the "
+         "whole stream; class = (word type, offset mod W, one-/two-word)",
     explanation="E-enum: after Set the stream plus two guard words on each side equals a bit-array model (MSB-first fields), Get "
                 "returns the value, and with PROT_NONE pages directly after the last / before the first word overlapping the "
                 "range any access to another word faults",
@@ -298,9 +308,10 @@ CHECKS["C18"] = dict(
     configs={"quick": ["pinned", "native"], "thorough": ["pinned", "debug", "native"]},
     shards={"pinned": 16, "debug": 16},
     deadline={"quick": 150, "thorough": 2400},
-    rule="~190 scenarios (every allocating API of dictionary, patched frame-of-reference, float, adaptive and bitmap on inputs "
+    rule="~200 scenarios (every allocating API of dictionary, patched frame-of-reference, float, adaptive and bitmap on inputs "
          "chosen to reach every allocation site: <=16 and >16 dictionary entries, 0 and >0 PFOR exceptions, exact and sampled "
-         "uniqueness, every forced adaptive encoding and its decoder, bitmap create/clone/add/remove/ranges/bulk/decode on array, "
+         "uniqueness, dictionary rebuilds across index-width classes (prior 8/100/300 entries x new 5/40/300/~10000 distinct) with "
+         "the dictionary then used as it is, every forced adaptive encoding and its decoder, bitmap create/clone/add/remove/ranges/bulk/decode on array, "
          "dense and run containers at both sides of 4096, set algebra on every pair of container kinds); for each scenario the "
          "fault-free allocation count N is measured and every k <= N is explored with the k-th allocation failing (bound 1; "
          "sequences longer than 300 identical insertions are thinned), thorough adds every pair k1 < k2 <= 41 (bound 2); class = "
@@ -319,8 +330,11 @@ CHECKS["C15"] = dict(
     configs={"quick": ["pinned", "msan"], "thorough": ["pinned", "debug", "msan", "native"]},
     shards={"pinned": 16, "debug": 16, "msan": 16},
     deadline={"quick": 150, "thorough": 1800},
-    rule="operation alphabet O of ~100 calls (every encoder / decoder / sizing / metadata entry point on five small fixed inputs, "
-         "two of them with equal element counts and different data); baseline = observable outputs (return values, output bytes up "
+    rule="operation alphabet O of ~115 calls (every encoder / decoder / sizing / metadata entry point on five small fixed inputs, "
+         "two of them with equal element counts and different data, matrices encoded in place and loaded from stored bytes, six "
+         "operations on 10500-element inputs incl. the constant-stride-10-sample class); environment seam: rand/random/srand/"
+         "lrand48/mrand48/drand48/time/clock are answered by the harness, every operation re-run fresh under 2 alternative answer "
+         "streams; baseline = observable outputs (return values, output bytes up "
          "to the returned length, the metadata fields that carry meaning) of each operation alone in a fresh exec'ed process; "
          "explored in children forked from a parent that never called the library: every ordered pair (p, c) in O x O, thorough: "
          "every ordered triple over the ~30 operations that share element counts; residue: every c x 16 stack words (0, ~0, a5.., "
@@ -345,7 +359,9 @@ CHECKS["C17"] = dict(
     rule="operation alphabet of ~65 calls documented as pure (every scalar family, every array codec, packed arrays / bitstream / "
          "a private bitmap on disjoint storage) on three shared read-only inputs and private outputs; harnesses: every unordered "
          "pair {i, j}, i <= j, as two threads (the pair (i, i) forces a collision on any lazily built or static scratch state), "
-         "one three-thread harness per operation, one 16-thread harness running every operation in 16 rotations; per harness: solo "
+         "one three-thread harness per operation, one 16-thread harness running every operation in 16 rotations, and 30 large "
+         "operations (10 codecs x 12000-value dense / increasing / low-cardinality inputs) as two-thread pairs (quick: same codec "
+         "or same input; thorough: all 465 pairs and every large x every fifth small operation); per harness: solo "
          "runs, three serial orders (ascending, descending, switch at every function entry) with per-thread event-log and output "
          "equality, conflict computation over all memory events, then every schedule up to preemption bound 1 (quick) / 2 "
          "(thorough) over the choice points; class = (first operation of the pair)",
